@@ -1,4 +1,4 @@
-(* C14, text level: the JSON slicer behind `biom subset-table` (biom/parse.py:57-259 and
+(* C14, text level: the JSON slicer behind `biom subset-table` (biom/parse.py:57-269, as of a7665d73, and
    biom/cli/table_subsetter.py:84-136) as functions over lists of code points, followed by the
    reference printers / parsers the theorems are stated with.
 
@@ -519,7 +519,7 @@ Fixpoint dumps (v : jv) : text :=
               ++ [RBRACE]
   end.
 
-(* ------------------------------------------------------------------ get_axis_indices (parse.py:223-259) *)
+(* ------------------------------------------------------------------ get_axis_indices (parse.py:233-269) *)
 Definition K_ROWS : text := Eval compute in codes_of_string "rows".
 Definition K_COLUMNS : text := Eval compute in codes_of_string "columns".
 Definition K_ID : text := Eval compute in codes_of_string "id".
